@@ -509,6 +509,8 @@ EXTRA_DECLS = [
     ("atomic-derived-multi-quals", "const _Atomic(int *) at10 = 0, at11 = 0; _Atomic(const int *) at12, at13; int atf(void) { at12 = 0; at13 = 0; return sizeof(at11) + sizeof(at13); }"),
     ("suffix-runs", "int cube[2][3][4]; int (*pcube)[2][3][4]; int (*ftab[2][3][4])(int); unsigned long zc1 = sizeof(cube), zc2 = sizeof(*pcube), zc3 = sizeof(ftab), zc4 = sizeof(int (*)[5][6][7]), zc5 = sizeof(cube[0]), zc6 = sizeof(cube[0][0]);"),
     ("switch-items-before-first-case", "int sw1(int x) { switch (x) { int tmp; case 1: tmp = 1; x = tmp; break; default: tmp = 2; x = tmp + 1; } return x; } int sw2(int x) { switch (x) { again: case 0: x++; if (x < 3) goto again; break; case 7: x = 1; } return x; }"),
+    ("designated-comma-values", "struct DP { int a, b; }; int dcv(int x) { struct DP p = { .a = (x++, x), 7 }; int v[3] = { [1] = (x, 2), 3 }; return p.a + p.b * 10 + v[1] * 100 + v[2] * 1000; }"),
+    ("alignas-several", "_Alignas(4) _Alignas(16) char ca16; struct AS { char pad; _Alignas(2) _Alignas(8) char m; } sas; unsigned long zas = sizeof(struct AS) + _Alignof(struct AS);"),
     ("const-ptr-chain", "const int * const * volatile cp1;"),
     ("extern-array", "extern int ea1[]; int ea1[5];"),
     ("kr-def", "int kr1(x, y) int x; char y; { return x + y; }"),
